@@ -14,6 +14,7 @@ use vcore::rng::Src;
 
 mod plans;
 mod findings;
+mod illformed;
 
 pub struct PtRng(pub TestRng);
 impl Src for PtRng {
@@ -113,6 +114,10 @@ fn main() {
    let o = parse();
    for n in gen::VAR_POOL.iter().chain(gen::REL_POOL.iter()) {
       assert!(!gen::is_reserved_shape(n), "identifier pool contains reserved shape {n}");
+   }
+   if o.prop == "C15" {
+      illformed::emit(&o);
+      return;
    }
    let mut groups = match &o.from_replay {
       Some(p) => vec![group_from_replay(p, None)],
